@@ -15,8 +15,8 @@ from ..report import HarnessError
 
 RULE = ('cells = service-config entries (each single canonical status code, pairs, all; timeout x retryPolicy presence; policy '
         'parameter shapes; entries naming 2 methods / 2 services; unnamed methods; service-only entries) ; histories = '
-        'retryable^k (k<=4, every combination of the entry codes) + terminal {OK, non-retryable, retryable-elsewhere}; x {sync, '
-        'asyncio} + explicit per-call overrides; non-trivial = distinct (cell, client, history) with >=2 attempts')
+        'retryable^k (k<=4, every combination of the entry codes) + terminal {OK, non-retryable, retryable-elsewhere}; x {sync gRPC, '
+        'asyncio gRPC, REST (codes a REST server can express)}, unary and server-streaming methods + explicit per-call overrides; non-trivial = distinct (cell, client, history) with >=2 attempts')
 
 P = 'acme.retry.v1'
 Q = lambda n: f'.{P}.{n}'
@@ -30,6 +30,8 @@ POLICIES = {
     'multiplier1': dict(maxAttempts=3, initialBackoff='0.5s', maxBackoff='5s', backoffMultiplier=1),
     'fractional': dict(maxAttempts=4, initialBackoff='0.25s', maxBackoff='1.5s', backoffMultiplier=1.5),
     'hits-max': dict(maxAttempts=9, initialBackoff='1s', maxBackoff='3s', backoffMultiplier=2),
+    # back-off long enough for a few faults to outlast any built-in default deadline (api-core's is 120 s)
+    'slow': dict(maxAttempts=9, initialBackoff='50s', maxBackoff='100s', backoffMultiplier=2),
 }
 TIMEOUTS = [None, '5s', '0.5s', '1.5s', '0.000000001s', '3600s']
 
@@ -42,6 +44,7 @@ def cells_and_config():
     """-> (cells, methodConfig list, services {name: [rpc names]})"""
     cells, entries = [], []
     svcs = {'Ret': [], 'Ret2': [], 'admin.Admin': []}
+    streams = set()
     n = 0
 
     def rpc(svc='Ret'):
@@ -51,8 +54,10 @@ def cells_and_config():
         svcs[svc].append(name)
         return name
 
-    def entry(cid, codes, policy='typical', timeout='60s', with_policy=True, targets=None):
+    def entry(cid, codes, policy='typical', timeout='60s', with_policy=True, targets=None, stream=False):
         targets = targets or [('Ret', rpc())]
+        if stream:
+            streams.update(m for _, m in targets)
         e = {'name': [{'service': f'{P}.{s}', 'method': m} for s, m in targets]}
         if timeout is not None:
             e['timeout'] = timeout
@@ -63,7 +68,7 @@ def cells_and_config():
             cells.append(dict(id=f'{cid}' + (f'@{s}.{m}' if len(targets) > 1 else ''), service=s.split('.')[-1], rpc=m, py=m.lower(),
                               package=names.import_package(P) + ('.' + s.split('.')[0] if '.' in s else ''),
                               codes=list(codes) if with_policy else [], policy=POLICIES[policy] if with_policy else None,
-                              timeout=dur(timeout), named=True))
+                              timeout=dur(timeout), named=True, stream=stream))
 
     for c in CODES:
         entry(f'single/{c}', [c])
@@ -75,6 +80,12 @@ def cells_and_config():
     for pname in POLICIES:
         entry(f'policy/{pname}', ['UNAVAILABLE', 'ABORTED'], policy=pname, timeout='30s')
         entry(f'policy/{pname}/short-deadline', ['UNAVAILABLE'], policy=pname, timeout='2.5s')
+    entry('policy-only/slow-backoff', ['UNAVAILABLE'], policy='slow', timeout=None)
+    entry('long-timeout/slow-backoff', ['UNAVAILABLE'], policy='slow', timeout='3600s')
+    # server-streaming methods: the same defaults govern the start of the stream
+    entry('stream/policy+timeout', ['UNAVAILABLE', 'RESOURCE_EXHAUSTED'], timeout='6.5s', stream=True)
+    entry('stream/timeout-only', ['UNAVAILABLE'], timeout='4s', with_policy=False, stream=True)
+    entry('stream/policy-only', ['UNAVAILABLE'], policy='fractional', timeout=None, stream=True)
     entry('two-methods', ['UNAVAILABLE'], targets=[('Ret', rpc()), ('Ret', rpc())])
     entry('two-services', ['INTERNAL'], timeout='7s', targets=[('Ret', rpc()), ('Ret2', rpc('Ret2'))])
     entry('no-codes', [], timeout='9s')
@@ -84,24 +95,29 @@ def cells_and_config():
     for svc in ('Ret', 'Ret2'):
         m = rpc(svc)
         cells.append(dict(id=f'unnamed/{svc}', service=svc, rpc=m, py=m.lower(), codes=[], policy=None, timeout=None, named=False,
-                          package=names.import_package(P)))
+                          package=names.import_package(P), stream=False))
+    m = rpc('Ret')
+    streams.add(m)
+    cells.append(dict(id='unnamed/stream', service='Ret', rpc=m, py=m.lower(), codes=[], policy=None, timeout=None, named=False,
+                      package=names.import_package(P), stream=True))
     # an entry naming only the service (nothing is demanded of its methods: observed, not judged)
     entries.append({'name': [{'service': f'{P}.Ret2'}], 'timeout': '11s',
                     'retryPolicy': dict(TYPICAL, retryableStatusCodes=['UNAVAILABLE'])})
-    return cells, entries, svcs
+    return cells, entries, svcs, streams
 
 
 def build():
-    cells, entries, svcs = cells_and_config()
+    cells, entries, svcs, streams = cells_and_config()
     msgs = [message('Req', [field('name', 1, 'string')]), message('Resp', [field('ok', 1, 'bool')])]
-    services = [service(s, [method(m, Q('Req'), Q('Resp')) for m in ms]) for s, ms in svcs.items() if '.' not in s]
+    mk = lambda m: method(m, Q('Req'), Q('Resp'), ss=m in streams, http=('post', f'/v1/{m.lower()}', '*'))
+    services = [service(s, [mk(m) for m in ms]) for s, ms in svcs.items() if '.' not in s]
     f = file('acme/retry/v1/retry.proto', P, messages=msgs, services=services)
     sub = file('acme/retry/v1/admin/admin.proto', P + '.admin',
-               services=[service('Admin', [method(m, Q('Req'), Q('Resp')) for m in svcs['admin.Admin']])])
+               services=[service('Admin', [mk(m) for m in svcs['admin.Admin']])])
     std = desc.std_dep_names()
     f.dependency.extend(std)
     sub.dependency.extend(std + [f.name])
-    req = request([f, sub], 'transport=grpc,autogen-snippets=false,retry-config=@retry.json@')
+    req = request([f, sub], 'transport=grpc+rest,autogen-snippets=false,retry-config=@retry.json@')
     desc.gate(req)
     return req, {'retry.json': json.dumps({'methodConfig': entries}, indent=1)}, cells
 
